@@ -46,7 +46,10 @@ structure Job where
 deriving DecidableEq, Repr
 
 /-- what a creator submits.  `defn = none`: empty or malformed definition JSON; `payload = none`: empty or
-    malformed payload JSON. -/
+    malformed payload JSON.  `owner` is NOT a free field of the request: it is the authenticated author of the
+    message — `msgServer.CreateJob` overwrites `job.Owner` with `Metadata.Creator` (whatever the message body
+    said; the harness sets a different `Job.Owner` in a quarter of its creates), and the wasm binding passes the
+    calling contract's address as creator.  There is no other owner input in the code. -/
 structure CreateIn where
   owner : Bytes
   id : Bytes
@@ -418,6 +421,22 @@ def Caller.addr (c : Caller) : Option Bytes := c.sender.orElse fun _ => c.contra
 def Caller.entryPoint (c : Caller) : Prop :=
   ∃ a : Bytes, a ≠ [] ∧ a.length ≤ 32 ∧ (c = Caller.account a ∨ c = Caller.wasm a)
 
+/-- an address as the SDK / wasmd hand it to a message handler: non-empty, at most 32 bytes (20 for
+    accounts, 32 for contracts) -/
+def sdkAddr (a : Bytes) : Prop := a ≠ [] ∧ a.length ≤ 32
+
+/-- the operation is one that a TRANSACTION or a CONTRACT can cause (as opposed to a Go caller of the keeper
+    API): `MsgExecuteJob` runs `Keeper.ExecuteJob` with `senderAddress` = the signer's account address and no
+    contract address; the two wasm bindings are called by wasmd with the calling contract's address.  The
+    op alphabet itself is wider (`Op.exec` takes ANY `Caller`, `Op.execWasm` / `Op.execLegacy` ANY byte string
+    as contract address — the harness drives the keeper entry point with such callers too), so the theorems
+    about "the account or contract that requested the execution" carry this predicate as a hypothesis. -/
+def Op.messageLevel : Op → Prop
+  | .exec _ _ caller => ∃ a, sdkAddr a ∧ caller = Caller.account a
+  | .execWasm addr _ _ => sdkAddr addr
+  | .execLegacy addr _ _ => sdkAddr addr
+  | _ => True
+
 /-- the execution request an operation carries: job id, supplied payload, caller -/
 def Op.request : Op → Option (Bytes × Supplied × Caller)
   | .exec id sup caller => some (id, sup, caller)
@@ -435,7 +454,9 @@ def chosen (j : Job) (sup : Supplied) : Bytes :=
 /-- "the message calls job `j` for the requester recorded in it": chain, contract, ABI and MEV flag are the
     job's; the payload is a payload `p` followed by the 32-byte left-padded address of the requester the
     message itself names (`SenderAddress`, else `ContractAddress`); `p` is the job's stored payload unless
-    the job is modifiable -/
+    the job is modifiable (for a modifiable job this predicate leaves `p` open: which `p` it is — the bytes the
+    requesting operation supplied, `chosen j sup` — is stated by `pending_call_provenance` and
+    `every_enqueued_call_is_the_jobs`) -/
 def Call.fromJob (c : Call) (j : Job) : Prop :=
   c.chain = j.chain ∧ c.contract = j.contract ∧ c.abi = j.abi ∧ c.mev = j.mev ∧
   ∃ p who : Bytes, who = ((c.sender.orElse fun _ => c.contractAddr).getD []) ∧ who.length ≤ 32 ∧
